@@ -463,7 +463,7 @@ func newExec(w *World, fn *ssa.Function, c *Contract, split *int) *Exec {
 	if split != nil {
 		x.suffix = fmt.Sprintf("/%s=%d", c.Split.Var, *split)
 	}
-	x.ev = &Evaluator{th: th, vc: x.vc, pkg: fn.Pkg.Pkg, sigs: w.sigs[mode]}
+	x.ev = &Evaluator{th: th, vc: x.vc, pkg: w.tpkg, sigs: w.sigs[mode]}
 	x.ev.deref = func(p Ptr, old bool) Val {
 		if old {
 			st := x.entryMem
